@@ -195,53 +195,55 @@ def parseShape (body : List Nat) : Option (List Int) :=
   | none => none
   | some s => if s = [] then none else some s
 
-/-- one TLV: type `t`, byte size `size` (a positive multiple of 8, already checked), bytes 2..7 and the
-bytes from 8 up to `size`. -/
-def parseOne (t size b2 b3 b4 b5 b6 b7 : Nat) (extra : List Nat) : Except Err TLV :=
-  let body := b2 :: b3 :: b4 :: b5 :: b6 :: b7 :: extra
-  if t = 0x09 then
-    if be16 b2 b3 ≠ 0 then .error .bad else .ok .other
-  else if t = 0x11 then
-    .ok (.ts { t := (be16 b2 b3 * 4294967296 + be32 b4 b5 b6 b7) * 65536, num := 0, den := 0 })
-  else if t = 0x12 then
-    if size ≠ 8 then .error .bad else .ok .other
-  else if t = 0x13 then
-    if size < 16 then .error .bad else
-    let nbits := b2
-    let t := beNat (extra.take 8)
-    if nbits < 64 then .ok (.ts { t := t % 2 ^ nbits, num := be16 b4 b5, den := be16 b6 b7 })
-    else if nbits = 64 then .ok (.ts { t := t, num := be16 b4 b5, den := be16 b6 b7 })
-    else .error .bad
-  else if t = 0x21 then
-    match parseFmt body with
-    | some f => .ok (.fmt f)
-    | none => .error .bad
-  else if t = 0x22 then
-    match parseShape body with
-    | some s => .ok (.shape s)
-    | none => .error .bad
-  else if t = 0x23 then
-    if be16 b2 b3 ≠ 0 then .error .bad else .ok (.off (be32 b4 b5 b6 b7))
-  else if t = 0x29 then .ok (.label body)
-  else .ok .other
+/-- one TLV: type `t`, byte size `size` (a positive multiple of 8, already checked) and its body
+`data[2:size]` (at least 6 bytes; the shorter case cannot occur and is an error). -/
+def parseOne (t size : Nat) (body : List Nat) : Except Err TLV :=
+  match body with
+  | b2 :: b3 :: b4 :: b5 :: b6 :: b7 :: extra =>
+    if t = 0x09 then
+      if be16 b2 b3 ≠ 0 then .error .bad else .ok .other
+    else if t = 0x11 then
+      .ok (.ts { t := (be16 b2 b3 * 4294967296 + be32 b4 b5 b6 b7) * 65536, num := 0, den := 0 })
+    else if t = 0x12 then
+      if size ≠ 8 then .error .bad else .ok .other
+    else if t = 0x13 then
+      if size < 16 then .error .bad else
+      -- nbits = b2; the counter is the 8 bytes after the unit words
+      if b2 < 64 then .ok (.ts { t := beNat (extra.take 8) % 2 ^ b2, num := be16 b4 b5, den := be16 b6 b7 })
+      else if b2 = 64 then .ok (.ts { t := beNat (extra.take 8), num := be16 b4 b5, den := be16 b6 b7 })
+      else .error .bad
+    else if t = 0x21 then
+      match parseFmt body with
+      | some f => .ok (.fmt f)
+      | none => .error .bad
+    else if t = 0x22 then
+      match parseShape body with
+      | some s => .ok (.shape s)
+      | none => .error .bad
+    else if t = 0x23 then
+      if be16 b2 b3 ≠ 0 then .error .bad else .ok (.off (be32 b4 b5 b6 b7))
+    else if t = 0x29 then .ok (.label body)
+    else .ok .other
+  | _ => .error .bad
 
 /-- the TLV loop.  `fuel` only makes the recursion structural (every iteration consumes ≥ 8 bytes;
-`parseTLV` supplies enough, see `Props`). -/
+`parseTLV` supplies enough, see `Lemmas/C15Dec`). -/
 def parseTLVf : Nat → List Nat → Except Err (List TLV)
   | _, [] => .ok []
   | 0, _ :: _ => .error .bad
-  | fuel + 1, t :: l :: b2 :: b3 :: b4 :: b5 :: b6 :: b7 :: more =>
+  | _ + 1, [_] => .error .bad
+  | fuel + 1, t :: l :: more =>
     let size := 8 * l
-    if size > more.length + 8 then .error .bad
+    if more.length + 2 < 8 then .error .bad             -- bytesRemaining < 8
+    else if size > more.length + 2 then .error .bad
     else if size = 0 then .error .bad
     else
-      match parseOne t size b2 b3 b4 b5 b6 b7 (more.take (size - 8)) with
+      match parseOne t size (more.take (size - 2)) with
       | .error e => .error e
       | .ok x =>
-        match parseTLVf fuel (more.drop (size - 8)) with
+        match parseTLVf fuel (more.drop (size - 2)) with
         | .error e => .error e
         | .ok r => .ok (x :: r)
-  | _ + 1, _ => .error .bad       -- 1..7 bytes remain
 
 def parseTLV (data : List Nat) : Except Err (List TLV) := parseTLVf data.length data
 
